@@ -156,7 +156,7 @@ Proof. apply closedb_sound. vm_compute. reflexivity. Qed.
 
 (* with allow_outer_scope_values the clone of the unsorted graph keeps the ORIGINAL's value a (id 6) as the
    input of the cloned node B (id 28), although the graph owns a and a clone of it (id 33) exists *)
-Definition wit_run := graph_clone 3 true false 19 wit_heap.
+Notation wit_run := (graph_clone 3 true false 19 wit_heap).
 
 Lemma wit_result : snd wit_run = Ok 38.
 Proof. vm_compute. reflexivity. Qed.
@@ -189,3 +189,17 @@ Proof. vm_compute. reflexivity. Qed.
 (* the serialization of this clone nevertheless equals the original's (references are by name) *)
 Lemma wit_canon_equal : gcanon (cells (hp (fst wit_run))) 3 38 = gcanon (cells wit_heap) 3 19.
 Proof. vm_compute. reflexivity. Qed.
+Lemma wit_wf : dicts_wf wit_heap.
+Proof.
+  intros x c Hc. change (assoc x wit_cells = Some c) in Hc. apply assoc_in in Hc. unfold wit_cells in Hc. cbn [In] in Hc.
+  repeat (destruct Hc as [Hc|Hc];
+          [injection Hc as <- <-; cbn [cell_wf m_data m_inv n_attrs g_inits map fst meta_empty];
+           first [exact I | split; [constructor|first [intros ? []|constructor]]] | ]).
+  destruct Hc.
+Qed.
+Lemma wit_wfdev : wf_dev wit_heap.
+Proof.
+  intros x n Hc. change (assoc x wit_cells = Some (CNode n)) in Hc. apply assoc_in in Hc. unfold wit_cells in Hc. cbn [In] in Hc.
+  repeat (destruct Hc as [Hc|Hc]; [try discriminate; injection Hc as <- <-; intros d sp y []|]).
+  destruct Hc.
+Qed.
